@@ -490,3 +490,41 @@ Definition conn_msgs (r : conn_res) : list msg :=
   match r with Open ms _ | Closed ms _ => ms | _ => [] end.
 Definition conn_err (r : conn_res) : option cerr :=
   match r with Closed _ e => Some e | _ => None end.
+
+(* ---------- client.in (InputStream) is dead as long as a socket read fits the pipeline buffer ---------- *)
+Definition of_conn (r : conn_res) : serve_res :=
+  match r with
+  | Open ms b => SOpen ms b []
+  | Closed ms e => SClosed ms e
+  | Crashed => SCrashed
+  | NoFuel => SNoFuel
+  end.
+
+Lemma serve_reads_dead parse psz : forall reads buf acc,
+  Forall (fun r => (length r <= psz)%nat) reads ->
+  serve_reads parse psz reads [] buf acc = of_conn (conn_run parse reads buf acc).
+Proof.
+  induction reads as [|r rest IH]; intros buf acc Hf; [reflexivity|].
+  inversion Hf as [|? ? Hr Hrest]; subst.
+  cbn [serve_reads conn_run app]. rewrite firstn_all2 by exact Hr. rewrite skipn_all2 by exact Hr.
+  destruct (rm_step parse buf r) as [ms b [e|]| |]; try reflexivity. apply IH; exact Hrest.
+Qed.
+
+(* with the read size the source uses, every read fits *)
+Lemma in_b_dead parse rsz psz reads buf acc : (rsz <= psz)%nat ->
+  Forall (fun r => (length r <= rsz)%nat) reads ->
+  serve_reads parse psz reads [] buf acc = of_conn (conn_run parse reads buf acc).
+Proof.
+  intros Hle Hf. apply serve_reads_dead. eapply Forall_impl; [|exact Hf]. cbn. intros; lia.
+Qed.
+
+Lemma source_sizes_fit : (N.to_nat sock_read_size <= N.to_nat pipeline_buf_size)%nat.
+Proof. unfold sock_read_size, pipeline_buf_size. lia. Qed.
+
+(* a socket read one byte larger than the pipeline buffer parks the last byte: the command is complete on
+   the server and is not parsed (scaled-down witness: buffer 5, read of the 6 bytes "PING\r\n") *)
+Lemma oversized_read_parks :
+  let r := [80; 73; 78; 71; 13; 10]%N in
+  serve_reads t38_parse_fixed 5 [r] [] [] [] = SOpen [] [80; 73; 78; 71; 13]%N [10%N] /\
+  conn_run t38_parse_fixed [r] [] [] = Open [{| m_args := [[80; 73; 78; 71]%N]; m_kind := KTelnet |}] [].
+Proof. vm_compute. split; reflexivity. Qed.
